@@ -9,6 +9,8 @@ import (
 	"crypto/sha256"
 	"fmt"
 	"os"
+	"path/filepath"
+	"strings"
 	"testing"
 
 	"github.com/rogpeppe/go-internal/cache"
@@ -80,7 +82,7 @@ func genPlan(t *rapid.T, tier string) any {
 			if s.Target == "index" {
 				s.How = rapid.SampledFrom([]string{"truncate", "extend", "flip", "delete", "replace", "nearvalid", "nearvalid"}).Draw(t, "how")
 			} else {
-				s.How = rapid.SampledFrom([]string{"truncate", "extend", "flip", "delete", "replace"}).Draw(t, "how")
+				s.How = rapid.SampledFrom([]string{"truncate", "extend", "flip", "delete", "replace", "symlink"}).Draw(t, "how")
 			}
 			s.Arg = rapid.IntRange(0, 200).Draw(t, "arg")
 			s.Variant = rapid.IntRange(0, 22).Draw(t, "variant")
@@ -320,6 +322,18 @@ func run(t *testing.T, plan any, keep bool) *simcheck.Outcome {
 							n = len(old) // same size, other bytes
 						}
 						os.WriteFile(path, cachekit.Content(1000+st.Arg, n), 0o666)
+					case "symlink":
+						// the data file becomes a symbolic link to a file of another length; where it fits,
+						// the length of the link's target *path* equals the stored size (what lstat reports)
+						if exists {
+							target := filepath.Join(dir, "zz-"+filepath.Base(path)[:10])
+							if want := len(old); want > len(target)+1 && want < 250 {
+								target += strings.Repeat("x", want-len(target))
+							}
+							os.WriteFile(target, cachekit.Content(2000+st.Arg, len(old)+1+st.Arg%7), 0o666)
+							os.Remove(path)
+							os.Symlink(target, path)
+						}
 					case "nearvalid":
 						// only for index files
 						cur := stored[st.ID]
@@ -372,7 +386,7 @@ var harness = &simcheck.Harness{
 	Level:    "exploration",
 	Rule: "rapid draws a history of up to 14 (quick) / 25 (thorough) steps over 3 action ids and up to 4 contents of sizes {0,1,2,100,5000,40000}: " +
 		"Put (PutBytes or a chunking ReadSeeker), Get, GetBytes, GetFile, OutputFile, and damage steps applied with the raw OS between operations " +
-		"(truncate/extend/flip/delete/replace of index or data files, 23 kinds of nearly valid index entries); non-trivial = at least one lookup after a damage step; " +
+		"(truncate/extend/flip/delete/replace of index or data files, data files replaced by symbolic links, 23 kinds of nearly valid index entries); non-trivial = at least one lookup after a damage step; " +
 		"distinct by the hash of the intercepted file-operation sequence",
 	Gen:     genPlan,
 	NewPlan: func() any { return &Plan{} },
